@@ -112,7 +112,11 @@ func c07Run(b *core.B) {
 	if b.Tier == core.Thorough {
 		reps = 1500
 	}
-	wrappers := []struct{ name, pre, post string; times int; multiOnly bool }{
+	wrappers := []struct {
+		name, pre, post string
+		times           int
+		multiOnly       bool
+	}{
 		{"top", "", "", 1, false},
 		{"in-for", "<%= for (i) in [1, 2] { %>[", "]<% } %>", 2, true},
 		{"in-fn", "<% let f = fn() { %>", "<% } %><%= f() %>", 1, true},
@@ -260,9 +264,9 @@ func c07Run(b *core.B) {
 
 func init() {
 	core.Register(&core.Prop{
-		ID:    "C07",
-		Level: "exploration",
-		Rule: fmt.Sprintf("(1) exhaustive matrix: %d value kinds + unknown identifier + nil variable x %d syntactic contexts (if, else-if, return-style if, !, !!, && true, || false, true &&, false ||, if !, if &&, inside for, inside a function) judged against the property's truth table; (2) chains of 1..5 branches with and without else, all 2^n truth assignments, conditions wrapped in a recording helper with values drawn from truthy and falsy kinds (not only bools), in 7 nesting contexts, multi-tag and single-tag layouts (x10 random value draws in quick, x1500 in thorough). Oracle: marker of the first truthy branch only, and exactly the conditions c1..cj evaluated. All cases non-trivial (matrix distinct by construction, chains by template hash).", len(Kinds), len(c07Forms)),
+		ID:         "C07",
+		Level:      "exploration",
+		Rule:       fmt.Sprintf("(1) exhaustive matrix: %d value kinds + unknown identifier + nil variable x %d syntactic contexts (if, else-if, return-style if, !, !!, && true, || false, true &&, false ||, if !, if &&, inside for, inside a function) judged against the property's truth table; (2) chains of 1..5 branches with and without else, all 2^n truth assignments, conditions wrapped in a recording helper with values drawn from truthy and falsy kinds (not only bools), in 7 nesting contexts, multi-tag and single-tag layouts (x10 random value draws in quick, x1500 in thorough). Oracle: marker of the first truthy branch only, and exactly the conditions c1..cj evaluated. All cases non-trivial (matrix distinct by construction, chains by template hash).", len(Kinds), len(c07Forms)),
 		Assume:     []string{"truth table taken from the property text: nil, false, \"\", empty HTML, nil pointers and unknown identifiers are falsy; everything else is truthy"},
 		Batches:    batchesQT(8, 32),
 		Run:        c07Run,
